@@ -54,7 +54,7 @@ def _cov(rs):
 
 SPEC = dict(
     level="exploration",
-    rule="Space A (fetch permission): documents = every word of length <= k (k=1 and k=2) over 102 reference tokens = 17 reference kinds {(since the third seeding round also: xs:import / xs:include / xs:redefine of a schema document that itself has a DOCTYPE with an external subset - a third-level reference read by the schema traverser's helper parser) external subset SYSTEM / PUBLIC, external "
+    rule="Space A (fetch permission): documents = every word of length <= k (k=1 and k=2) over 102 reference tokens = 17 reference kinds {(the file: form carries an escaped percent sign, file:///v/d%2541N.x, which names the file d%41N.x; since the third seeding round also: xs:import / xs:include / xs:redefine of a schema document that itself has a DOCTYPE with an external subset - a third-level reference read by the schema traverser's helper parser) external subset SYSTEM / PUBLIC, external "
          "general entity declared+used / declared only / used in an attribute value, external parameter entity, xsi:schemaLocation, xsi:noNamespaceSchemaLocation, xs:import / "
          "xs:include / xs:redefine inside a fetched schema, DOCTYPE inside a fetched schema document, external general entity / external parameter entity whose declaration text is the "
          "replacement text of an internal parameter entity (expanded in the document's internal subset, or inside an external subset / external PE living in /v/sub/ while the reference "
